@@ -192,15 +192,26 @@ def p3_parallel_fd(ctx, mode="proc"):
         return a @ (v * v) + a @ v
 
     step = 1e-6 if cls is not ComplexStep else 1e-20
-    cfg = {"workload": f"P3-{cls.__name__}/{mode}", "dim": dim, "n_out": n_out, "n_workers": n_workers, "x": x.tolist()}
+    # with a design space the perturbation of a component sitting on its upper bound goes backwards
+    kw = {}
+    bounded = t.flag(0.5, "design_space")
+    if bounded:
+        from gemseo.algos.design_space import DesignSpace
+
+        ds = DesignSpace()
+        ds.add_variable("x", size=dim, lower_bound=-1.5, upper_bound=1.5)
+        kw["design_space"] = ds
+        if any(abs(v) == 1.5 for v in x):
+            ctx.probe("fd_point_on_a_bound")
+    cfg = {"workload": f"P3-{cls.__name__}/{mode}", "dim": dim, "n_out": n_out, "n_workers": n_workers, "x": x.tolist(), "design_space": bool(bounded)}
     ctx.event("cfg", canon(cfg))
     sig = cfg["workload"]
-    ref = cls(f, step=step).f_gradient(x.copy())
+    ref = cls(f, step=step, **kw).f_gradient(x.copy())
     clock = SimClock()
     with common.engine(ctx, mode, clock, **({"with_locks": False} if mode == "thread" else {})) as eng:
         state["eng"] = eng
         try:
-            par = cls(f, step=step, parallel=True, n_processes=n_workers, use_threading=mode == "thread").f_gradient(x.copy())
+            par = cls(f, step=step, parallel=True, n_processes=n_workers, use_threading=mode == "thread", **kw).f_gradient(x.copy())
         except common.Deadlock as d:
             ctx.violate("C13.liveness", sig + " deadlock", str(d))
         finally:
